@@ -55,6 +55,11 @@ def rule_ctx(ctx):
             held = lexical_locks(s, cls_of)
             ctx.ob('C20.ctx', f'{fq}:{norm(s)}:under-lock', cls_of.get('_def_build_lock') in held,
                    'the build context is written without the build lock', s, f.module)
+        reads = [n_ for n_ in walk_local(f.node) if isinstance(n_, ast.Attribute) and n_.attr == '_current_synthdef' and isinstance(n_.ctx, ast.Load)]
+        unlocked = [n_ for n_ in reads if cls_of.get('_def_build_lock') not in lexical_locks(n_, cls_of)]
+        ctx.ob('C20.ctx', f'{fq}:context-read-under-lock', not unlocked,
+               f'the build context is read outside the build lock ({[norm(U.enclosing_stmt(n_))[:60] for n_ in unlocked]}): a build started while another '
+               f'thread is inside its graph function acts on that thread\'s context instead of waiting for the lock (concurrent builds interfere)', f.node, f.module)
         tries = [t for t in walk_local(f.node) if isinstance(t, ast.Try)]
         ok = len(tries) == 1 and isinstance(tries[0]._parent, ast.With) and norm(tries[0]._parent.items[0].context_expr) == '_libsc3.main._def_build_lock'
         first_set = sets and sets[0]
@@ -228,6 +233,8 @@ MUTANTS = [
          old="            self._constants[value] = len(self._constants)", new="            self._constants[value] = list(self._constant_set).index(value)"),
     dict(rule='C20.pure', name='class-level unit counter used on the build path', file='sc3/synth/ugen.py',
          old="        obj._synthdef = None  # Is_current_synthdef after _add_to_synth.\n", new="        obj._synthdef = None  # Is_current_synthdef after _add_to_synth.\n        cls._count = getattr(cls, '_count', 0) + 1\n"),
+    dict(rule='C20.ctx', name='context tested before taking the lock', file='sc3/synth/synthdef.py',
+         old="    def _build(self, func, rates, prepend):\n        with _libsc3.main._def_build_lock:", new="    def _build(self, func, rates, prepend):\n        if _libsc3.main._current_synthdef is not None:\n            raise Exception('nested build')\n        with _libsc3.main._def_build_lock:"),
 ]
 
 REPAIRS = []
